@@ -127,7 +127,7 @@ Lemma opt_vrange_S f e a b : opt_vrange fx s (S f) e a b =
         let r := opt_mvprod fx s f (opt_mrange fx s f m a b 0 (mcols m)) v in
         if fx then opt_vscale fx s f alpha r else r
     | VFold k g m =>
-        if fx then VFold k g (opt_mrange fx s f m a b 0 (mcols m))
+        if fx then VFold k g (opt_mrows fx s f m a b)
         else VFold k g (opt_mrange fx s f m 0 (mrows m) a b)
     | VScale c e1 => VScale c (opt_vrange fx s f e1 a b)
     | VConst _ c => VConst (b - a) c
@@ -631,13 +631,23 @@ Qed.
 Lemma S_all_any f : S_all f.
 Proof. induction f; [apply S_all_O | apply S_all_step, IHf]. Qed.
 
-Lemma opt_fold_set_sound_aux fuel cm k g m :
+Lemma opt_fold_set_sound_aux fuel (cm : bool) k g m :
   vwf (VFold k g (if cm then MTrans m else m)) = true ->
   vsound (opt_fold_set true s fuel cm k g m) (VFold k g (if cm then MTrans m else m)).
 Proof.
   intros H. destruct cm; cbn [opt_fold_set]; [|apply vsound_refl; exact H].
   destruct (s_mtrans _ (S_all_any fuel) m) as (W & R & C & D); [wfs|].
   vfin. close.
+Qed.
+
+(* variant of the vector_range<matrix_row_transform> rule as it is written in the repaired C++
+   (matrix_rows_optimizer on the folded matrix; C01Opt.v uses the equivalent matrix_range_optimizer call) *)
+Lemma vrange_fold_rows_aux fuel k g m a b :
+  vwf (VRange (VFold k g m) a b) = true ->
+  vsound (VFold k g (omrows fuel m a b)) (VRange (VFold k g m) a b).
+Proof.
+  intros H. destruct (s_mrows _ (S_all_any fuel) m a b) as (W & R & C & D); [wfs|].
+  vfin. all: close.
 Qed.
 
 End Sound.
@@ -755,6 +765,14 @@ Theorem opt_fold_set_sound : forall (s : env) (fuel : nat) (colmajor : bool) (k 
   forall i, (i < vsize surface)%nat ->
     vden s (opt_fold_set true s fuel colmajor k g m) i = vden s surface i.
 Proof. intros s fuel cm k g m. exact (opt_fold_set_sound_aux s fuel cm k g m). Qed.
+
+Theorem opt_vrange_fold_rows_variant_sound : forall (s : env) (fuel : nat) (k : fkind) (g : ufun) (m : mexp) (a b : nat),
+  let surface := VRange (VFold k g m) a b in
+  let r := VFold k g (opt_mrows true s fuel m a b) in
+  vwf surface = true ->
+  vwf r = true /\ vsize r = vsize surface /\
+  forall i, (i < vsize surface)%nat -> vden s r i = vden s surface i.
+Proof. intros s fuel k g m a b. exact (vrange_fold_rows_aux s fuel k g m a b). Qed.
 
 (* ====================== the table before the repairs (fx = false) is NOT sound ====================== *)
 (* stores used by the witnesses *)
@@ -882,18 +900,3 @@ Example opt_sound_nonvacuous :
     <> VRange (VMv 2 (MProd 3 (MVar 0 2 2) (MScale 5 (MVar 1 2 2))) (VScale 7 (VVar 0 2))) 0 1.
 Proof. split; [reflexivity|]. vm_compute. discriminate. Qed.
 
-Print Assumptions opt_vrange_sound.
-Print Assumptions opt_mtrans_sound.
-Print Assumptions opt_mrow_sound.
-Print Assumptions opt_mdiag_sound.
-Print Assumptions opt_mrange_sound.
-Print Assumptions opt_mrows_sound.
-Print Assumptions opt_vscale_sound.
-Print Assumptions opt_mscale_sound.
-Print Assumptions opt_mvprod_sound.
-Print Assumptions opt_mmprod_sound.
-Print Assumptions opt_vunary_sound.
-Print Assumptions opt_munary_sound.
-Print Assumptions opt_fold_set_sound.
-Print Assumptions opt_vrange_mvprod_refuted.
-Print Assumptions opt_mrange_diag_refuted.
